@@ -13,8 +13,6 @@ package main
 
 import (
 	"bufio"
-	"crypto/sha256"
-	"encoding/hex"
 	"encoding/json"
 	"fmt"
 	"os"
@@ -49,6 +47,8 @@ type SimLine struct {
 	Line string `json:"line"`
 	Kind string `json:"kind"` // login | read | session | change | save
 	Mode string `json:"mode"` // login | exec | config
+	// Linux `grep … /etc/issue`: number of lines the device answered (-1 = not such a line / unknown)
+	Ans int `json:"ans"`
 }
 
 var asaReadOnly = map[string]bool{"": true, "enable": true, "sh pager": true, "terminal pager 0": true, "sh term": true,
@@ -136,7 +136,7 @@ func (s *cliSim) read() (string, bool) {
 	}
 	line = strings.TrimRight(line, "\r\n")
 	kind := s.classify(line)
-	rec, _ := json.Marshal(SimLine{s.n, line, kind, s.mode})
+	rec, _ := json.Marshal(SimLine{s.n, line, kind, s.mode, s.grepAnswer(line)})
 	s.tr.Write(append(rec, '\n'))
 	if kind == "change" || kind == "save" {
 		s.journal = append(s.journal, line)
@@ -155,6 +155,28 @@ func (s *cliSim) read() (string, bool) {
 }
 
 func (s *cliSim) echo(line string) { s.out(line + "\n") }
+
+// issueLines: what `grep '<re>' /etc/issue` prints (the device's grep is taken to understand the
+// regexp as Go does; the harness only uses patterns that mean the same to grep)
+func (s *cliSim) issueLines(line string) []string {
+	re := strings.TrimSuffix(strings.TrimPrefix(line, "grep '"), "' /etc/issue")
+	var out []string
+	if rx, err := regexp.Compile(re); err == nil && re != "" {
+		for _, l := range strings.Split(s.scn.Issue, "\n") {
+			if l != "" && rx.MatchString(l) {
+				out = append(out, l)
+			}
+		}
+	}
+	return out
+}
+
+func (s *cliSim) grepAnswer(line string) int {
+	if s.scn.Type == "Linux" && s.mode != "login" && strings.HasPrefix(line, "grep '") && strings.HasSuffix(line, "' /etc/issue") {
+		return len(s.issueLines(line))
+	}
+	return -1
+}
 
 func simMain(path string) {
 	data, err := os.ReadFile(path)
@@ -360,15 +382,8 @@ func (s *cliSim) linux() {
 		case line == "hostname -s":
 			s.out(scn.Hostname + "\n")
 		case strings.HasPrefix(line, "grep '") && strings.HasSuffix(line, "' /etc/issue"):
-			// (the device's grep is taken to understand the regexp as Go does; the harness only uses
-			// patterns that mean the same to grep)
-			re := strings.TrimSuffix(strings.TrimPrefix(line, "grep '"), "' /etc/issue")
-			if rx, err := regexp.Compile(re); err == nil && re != "" {
-				for _, l := range strings.Split(scn.Issue, "\n") {
-					if l != "" && rx.MatchString(l) {
-						s.out(l + "\n")
-					}
-				}
+			for _, l := range s.issueLines(line) {
+				s.out(l + "\n")
 			}
 		case line == "ip route show":
 			s.out(scn.Routes)
@@ -399,16 +414,4 @@ func readTranscript(path string) []SimLine {
 		}
 	}
 	return out
-}
-
-// stateHash of a device whose initial state is `initial` after receiving the transcript.
-func stateHash(initial string, tr []SimLine) string {
-	h := sha256.New()
-	h.Write([]byte(initial))
-	for _, l := range tr {
-		if l.Kind == "change" || l.Kind == "save" {
-			h.Write([]byte("\x00" + l.Line))
-		}
-	}
-	return hex.EncodeToString(h.Sum(nil))[:16]
 }
